@@ -1,7 +1,7 @@
 #!/venv/bin/python
 """Re-run the quick check of its own property against every stored seeded change (scratch copy of
 /repo HEAD + patch), record the outcome in meta.json under 'final' and print a summary.
-  tools_seedsweep.py [PID ...]"""
+  tools_seedsweep.py [PID ...]        (SWEEP_SEEDS="1 2 3": every seed value must detect the change)"""
 import os, sys, re, json, glob, shutil, subprocess, tempfile
 from concurrent.futures import ThreadPoolExecutor
 ROOT = os.path.dirname(os.path.abspath(__file__))
@@ -22,10 +22,15 @@ def one(d):
                                shell=True, cwd="/", capture_output=True, text=True)
         if r.returncode:
             return d, "patch-does-not-apply", []
-        env = dict(os.environ, VERIF_REPO=tmp, VERIF_SEED="1", VERIF_NOEVIDENCE="1", VERIF_JOBS="4")
-        rr = subprocess.run(["./check", pid, "--tier", "quick"], cwd=ROOT, env=env, capture_output=True, text=True)
-        laws = sorted(set(re.findall(r"law=(\S+)", rr.stdout)))
-        return d, rr.returncode, laws
+        rcs, laws = [], set()
+        for seed in os.environ.get("SWEEP_SEEDS", "1").split():
+            env = dict(os.environ, VERIF_REPO=tmp, VERIF_SEED=seed, VERIF_NOEVIDENCE="1", VERIF_JOBS="4")
+            rr = subprocess.run(["./check", pid, "--tier", "quick"], cwd=ROOT, env=env, capture_output=True, text=True)
+            laws |= set(re.findall(r"law=(\S+)", rr.stdout))
+            rcs.append(rr.returncode)
+        # 1 only if every seed value detected it
+        rc = 1 if all(x == 1 for x in rcs) else (rcs[0] if len(set(rcs)) == 1 else "mixed:%s" % rcs)
+        return d, rc, sorted(laws)
     finally:
         shutil.rmtree(tmp, ignore_errors=True)
 with ThreadPoolExecutor(4) as ex:
@@ -33,7 +38,8 @@ with ThreadPoolExecutor(4) as ex:
 miss = 0
 for d, rc, laws in res:
     m = json.load(open(os.path.join(d, "meta.json")))
-    m["final"] = {"repo_head": head, "own_check_quick_exit": rc, "laws": laws}
+    m["final"] = {"repo_head": head, "own_check_quick_exit": rc, "laws": laws,
+                  "seeds": os.environ.get("SWEEP_SEEDS", "1")}
     json.dump(m, open(os.path.join(d, "meta.json"), "w"), indent=1)
     flag = "ok " if rc == 1 else "MISS"
     if rc != 1:
